@@ -39,22 +39,9 @@ def recipe(c: Check):
     st2 = c.run_driver("controller", q(c.tier, 64, 400), shards=q(c.tier, 4, 8))
     cnt2 = c.cov.get("coq_counters", {}).get("controller", {})
     if st2 is not None and cnt2:
-        for k in ("NEVVISITOR", "NEVDELIVER", "NEVCLIENT", "NEVTIMEOUT", "NEVANALYSE", "NEVREPORT", "NEVCLOSE"):
+        for k in ("NEVVISITOR", "NEVDELIVER", "NEVCLIENT", "NEVTIMEOUT", "NEVANALYSE", "NEVREPORT", "NEVCLOSE", "NEVGIVEUP"):
             if cnt2.get(k, 0) <= 0:
                 c.broken.append(dict(kind="coverage", name="driver controller never reached event %s" % k, detail=str(cnt2)))
-    # F-C20b: a session whose owner closed between lookup and sid hand-over is never removed (refuted clause
-    # C20_sessions_empty_at_quiescence_refuted).  Reported as a failure only under the key a KNOWN_FINDINGS.txt
-    # line would carry; until the lead lists or repairs it, it is recorded in the evidence as a note.
-    FKEY = "controller.go:HandleVisitor:sid-handover-after-owner-close"
-    if st2 is not None and st2.get("stuck_sessions", 0) > 0:
-        if any(k["key"] == FKEY for k in c.known_findings() if k["property"] == PID):
-            c.failures.append(dict(key=FKEY, driver="controller",
-                                   what="%d session(s) still in the table after NatHoleTimeout: owner closed before taking the sid" % st2["stuck_sessions"],
-                                   case=st2.get("stuck_example", "")))
-        else:
-            c.notes.append("finding candidate F-C20b reproduced on the implementation (%d stuck sessions; key %s); not listed in "
-                           "KNOWN_FINDINGS.txt, reported to the lead; model agrees (C20_sessions_empty_at_quiescence_refuted)"
-                           % (st2["stuck_sessions"], FKEY))
     return c.finish(
         rule="nathole driver: (1) EXHAUSTIVE over NatType x Behavior x RegularPortsChange x PublicNetwork for both sides (1024 "
              "pairs), each with a random history of GetRecommandBehaviors / ReportSuccess (reports for the last recommendation, "
@@ -67,7 +54,7 @@ def recipe(c: Check):
              "MessageTransporters, a harness-controlled receiver standing in for the XTCPProxy goroutine, NatHoleTimeout = 1 s): "
              "pre-checks, refused requests (bad signature, stale timestamp, unknown proxy, user not allowed), complete sessions, "
              "timeouts, owner answers before the hand-over / twice / with unknown sids, reports for live, finished and unknown sids, "
-             "owner close and re-register, owner close while a hand-over is pending; written as the list of model events the script "
+             "owner close and re-register, owner close while a hand-over is pending (the hand-over must be given up after NatHoleTimeout: repaired F-C20b); written as the list of model events the script "
              "enforces plus observation points (session table, inbox of every transporter) and replayed through ctl_step. "
              "distinct = distinct case text; non-trivial = history with >= 2 operations / list with >= 2 addresses / scenario with a session",
         assumptions=["md5 over the analysis key text is injective (the model keys records by the text that is hashed)",
